@@ -241,7 +241,8 @@ POOL = Pool()
 
 
 class Rig:
-    def __init__(self, in_win, peer_win, peer_max, nthr, combine=False, chanid=1, base=0, stmt_gates=False):
+    def __init__(self, in_win, peer_win, peer_max, nthr, combine=False, chanid=1, base=0, stmt_gates=False,
+                 adjust_gate=False):
         import paramiko.channel as chmod
         from paramiko.message import Message
         self.chmod = chmod
@@ -291,6 +292,14 @@ class Rig:
         if stmt_gates:
             from pv import lib_chanlock
             self.gates = lib_chanlock.gate_lines(chmod.Channel)
+        if adjust_gate:
+            # yield point in _window_adjust just before it takes the channel lock: whatever it has read of the
+            # channel state by then was read without the lock
+            from pv import lib_chanlock
+            ln = lib_chanlock.first_lock_acquire_line(chmod.Channel._window_adjust)
+            if ln is not None:
+                self.gates = dict(self.gates or {})
+                self.gates[chmod.Channel._window_adjust.__code__] = ln
 
     def current(self):
         return POOL.by_ident.get(threading.get_ident())
@@ -402,6 +411,14 @@ class Rig:
             m.add_int(int(w[1]))
             m.rewind()
             c._window_adjust(m)
+        elif k == "gadjust":
+            # _window_adjust on logical thread t (the transport thread), stopped at the statement gate
+            t = int(w[1])
+            m = M()
+            m.add_int(int(w[2]))
+            m.rewind()
+            prev = self.threads[t].result
+            self.call(t, "gadjust", lambda: (c._window_adjust(m), prev)[1])
         elif k == "peof":
             c._handle_eof(None)
         elif k == "pclose":
